@@ -30,7 +30,8 @@ RULE = (
     "whole seconds, as int64 / uint32 arrays or a list of ints; uint16 label vectors carry id 65535 "
     "in half of the cases. "
     "Each case is evaluated for several cluster-id lists: None, ascending with an absent id, "
-    "reversed with an absent id first. (rand) Hypothesis trains up to 400 spikes. "
+    "reversed with an absent id first, and an int32 id array that is reversed in place between two "
+    "calls. (long) hand-made trains of 400 000 spikes (thorough: up to 2**20+77). (rand) Hypothesis trains up to 400 spikes. "
     "Oracle: O(n^2) pair loop with exact integer arithmetic; symmetrised shape 2*half+1, "
     "C[i,j,k]==C[j,i,-k], positive lags == one-sided counts, centre == max of the two zero-lag "
     "counts; firing_rate == outer(counts,counts)*bin/duration with zero rows for empty ids. "
@@ -88,9 +89,35 @@ def _f32_case(draw):
             'rate_type': draw(st.sampled_from(['int', 'float']))}
 
 
+def _long_cases(th):
+    # trains longer than 2**18 (thorough: 2**20) spikes
+    for i, (n, bw) in enumerate([(400000, [3, 33])] + ([(2 ** 20 + 77, [2, 9]), (300001, [1, 5])]
+                                                        if th else [])):
+        yield {'k': 'long', 'n': n, 'seed': 15 + i, 'bw': bw, 'nlab': 3}
+
+
+def _check_long(case):
+    rs = np.random.RandomState(case['seed'])
+    n, (b, w) = case['n'], case['bw']
+    samples = np.cumsum(rs.randint(0, 12, size=n)).astype(np.int64)
+    labels = rs.randint(0, case['nlab'], size=n)
+    ids = [IDS[k] for k in range(case['nlab'])]
+    cl = [ids[k] for k in labels]
+    rate = 4
+    half = int(Fraction(w, 2 * b))
+    exp = _one_sided(samples.tolist(), cl, ids, b, half)
+    got = must_return('correlograms(symmetrize=False)', correlograms, samples / float(rate),
+                      np.array(cl, dtype=np.int32), cluster_ids=ids, sample_rate=float(rate),
+                      bin_size=b / rate, window_size=w / rate, symmetrize=False)
+    same_array('one-sided correlogram (%d spikes)' % n, got, exp, key='one-sided', dtype=False)
+    return {'half': half, 'edge': True}
+
+
 def drivers(tier):
     th = tier == 'thorough'
     return [
+        dict(kind='enum', name='long', exhaustive=False,
+             bound='trains of 400 000 (thorough: up to 2**20+77) spikes', cases=lambda: _long_cases(th)),
         dict(kind='enum', name='fr-big', exhaustive=False, bound='cluster sizes around 46 341',
              cases=lambda: _big_rate_cases(th)),
         dict(kind='hyp', name='f32', strategy=_f32_case(), examples=6000 if th else 600),
@@ -156,6 +183,8 @@ def check(case):
         return _check_fr_big(case)
     if case.get('k') == 'f32':
         return _check_f32(case)
+    if case.get('k') == 'long':
+        return _check_long(case)
     gaps, labels, (b, w) = case['gaps'], case['labels'], case['bw']
     rate = case['rate']
     samples = [case.get('start', 0)]
@@ -216,6 +245,25 @@ def check(case):
         efr = np.outer(counts, counts) * (bin_size / duration)
         same_array('firing_rate (cluster_ids=%s)' % (ids,), fr, efr, key='firing-rate',
                    dtype=False, tol=(1e-12, 0))
+    # the caller's id array is read at every call: editing it in place between two calls changes
+    # the order of the result accordingly
+    if len(present) >= 2:
+        arr = np.array(present + absent[:1], dtype=np.int32)
+        kw = dict(sample_rate=float(rate), bin_size=bin_size, window_size=window, symmetrize=False)
+        for step in range(2):
+            eff = arr.tolist()
+            got = must_return('correlograms(cluster_ids=int32 array)', correlograms, times,
+                              clusters, cluster_ids=arr, **kw)
+            same_array('one-sided correlogram (cluster_ids array %s%s)' % (
+                eff, ', edited in place since the previous call' if step else ''), got,
+                _one_sided(samples, cl, eff, b, half), key='one-sided', dtype=False)
+            fr = must_return('firing_rate', firing_rate, clusters, cluster_ids=arr,
+                             bin_size=bin_size, duration=1.0)
+            counts = np.array([cl.count(c) for c in eff], dtype=np.float64)
+            same_array('firing_rate (cluster_ids array %s)' % eff, fr,
+                       np.outer(counts, counts) * bin_size, key='firing-rate', dtype=False,
+                       tol=(1e-12, 0))
+            arr[:] = arr[::-1].copy()
     # edge pairs: lag exactly in the last kept bin or the first excluded one
     for a in range(len(samples)):
         for bb in range(a + 1, len(samples)):
@@ -230,6 +278,8 @@ def classify(case, info):
         return ['fr-big'], True
     if case.get('k') == 'f32':
         return ['f32-times', 'f32:rate-' + case['rate_type']], True
+    if case.get('k') == 'long':
+        return ['long:%d-spikes' % case['n']], True
     labels = [case['k'], 'rate:%d' % case['rate'], 'half:%s' % min(info['half'], 3)]
     nt = False
     if any(g == 0 for g in case['gaps']):
